@@ -199,7 +199,7 @@ theorem C01_gen_copy_path :
 
 example : resolve 5 (.slice none none (some (-2))) = .ok [4, 2, 0] := by decide
 example : resolve 5 (.slice (some (-4)) (some 9) (some 3)) = .ok [1, 4] := by decide
-example : resolve 4 (.arr [3, -4, 1] true) = .ok [3, 0, 1] := by decide
+example : resolve 4 (.arr [3, -4, 1] .nd) = .ok [3, 0, 1] := by decide
 example : resolve 4 (.mask [false, true, true, false] .nd) = .ok [1, 2] := by decide
 example : resolve 3 (.int (-4)) = .error .indexError := by decide
 example : relabel [(0, 1, 1), (1, 2, 2), (0, 3, 4)] [3, 0, 1] = [(1, 2, 1), (0, 1, 4)] := by decide
@@ -216,7 +216,7 @@ example : getitem2 exStack (.slice none none none) (.int (-1)) =
   decide
 example : delitem exStack (.int 0) = .ok { exStack with coord := [[104, 105, 106]], box := some [202] } := by decide
 example : (subarray { exStack with stack := false, coord := [[101, 102, 103]], box := some [201] }
-    (.arr [2, 0, 1] true)).map (·.bonds) = .ok (some ⟨3, [(1, 2, 1), (0, 2, 2)]⟩) := by decide
+    (.arr [2, 0, 1] .nd)).map (·.bonds) = .ok (some ⟨3, [(1, 2, 1), (0, 2, 2)]⟩) := by decide
 
 /-! ## Refinement to the list-of-atoms reference model (`Model/C01Spec.lean`)
 
